@@ -19,8 +19,8 @@ What is proved, at which strength (see NOTES-C06.md):
   post-fixpoint checker, also run on the real in/out sets), `C06_ideal_exact`, `C06_sound_once`,
   and `C06_dag_exact` (one sweep in a topological order is exactly classical reaching definitions).
 * about the frozen model `rd0`: negative theorems `C06_loop_def_lost`, `C06_dag_def_lost`,
-  `C06_header_revisit_reads_nothing`, `C06_pop_removes_other_element` with concrete CFG witnesses
-  replayed on the real code by the harness (corpus/C06).
+  `C06_header_revisit_reads_nothing`, `C06_kill_skip_dead_def_real`, `C06_pop_removes_other_element`
+  with concrete CFG witnesses replayed on the real code by the harness (corpus/C06).
 -/
 import LianVerif.Proofs.ReachDef
 
@@ -605,6 +605,37 @@ theorem C06_skip_kill_retains_dead_def :
   subst hp4
   cases hp with
   | step _ _ hnd => exact hnd (by decide)
+
+/-- The same defect on a **real** lian CFG (corpus/C06/kill_skip_dead_def.json):
+`while y > 5: if y > 2: pass else: (if x: return c else: return y); x = y + z` / `x = z + x` / `z = 2`.
+139 = `x = y + z` has no CFG predecessor (both branches above it return), so it is a second work-list
+entry with priority 0 and 140 = `x = z + x`, 141 = `z = 2`, 142 are analysed *before* the loop header
+127; the header's first visit reads the back edge, the definition (125,140) travels round the loop, and
+at the second visit of 140 the kill is skipped: (125,125) and (125,139) — definitions of `x` that 140
+overwrites on every path — are in the final in set of 141 (reachable from the entry).
+Deadness is certified through `C06_ideal_exact`: the converged idealised solver does not contain them. -/
+def W_kill : Input :=
+  { edges := [(122, 124, 0), (124, 125, 0), (125, 126, 0), (126, 127, 0), (127, 129, 4), (127, -1, 5), (129, 130, 0), (130, 132, 1), (130, 134, 2), (132, 140, 0), (134, 136, 1), (134, 138, 2), (140, 141, 0), (136, -1, 9), (138, -1, 9), (141, 142, 0), (139, 140, 0), (142, 127, 6)],
+    stmts := [122, 124, 125, 126, 127, 129, 130, 132, 134, 136, 138, 139, 140, 141, 142],
+    loops := [127],
+    defs := [(122, [122]), (124, [124]), (125, [125]), (126, [126]), (127, []), (129, [129]), (130, []), (132, []), (134, []), (136, []), (138, []), (139, [125]), (140, [125]), (141, [124]), (142, [126])],
+    maxRound := 3, weightWorks := false, loopBack := 6 }
+
+theorem C06_kill_skip_dead_def_real :
+    ((rd0 W_kill).ins 141).contains (125, 139) = true ∧ ((rd0 W_kill).ins 141).contains (125, 125) = true ∧
+    (rd0 W_kill).skipStmts.contains 140 = true ∧
+    ¬ ReachIn (EdgeOf (mkGraph W_kill.rawEdges).E) (defsOf W_kill.defs) (125, 139) 141 ∧
+    ¬ ReachIn (EdgeOf (mkGraph W_kill.rawEdges).E) (defsOf W_kill.defs) (125, 125) 141 ∧
+    (rd0 W_kill).visits = [122, 139, 124, 140, 125, 141, 126, 142, 127, 129, 130, 132, 134, 138, 136,
+      140, 141, 142, 142] := by
+  have hc : (ideal W_kill).converged = true := by decide +kernel
+  refine ⟨by decide +kernel, by decide +kernel, by decide +kernel, ?_, ?_, by decide +kernel⟩
+  · intro h
+    have := (C06_ideal_exact W_kill hc (125, 139) 141 (by decide +kernel)).2 h
+    exact absurd this (by decide +kernel)
+  · intro h
+    have := (C06_ideal_exact W_kill hc (125, 125) 141 (by decide +kernel)).2 h
+    exact absurd this (by decide +kernel)
 
 /-! ### 4. Non-vacuity -/
 
